@@ -17,6 +17,7 @@ from pandapipes.pf.pipeflow_setup import (
     check_infeed_number, PipeflowNotConverged
 )
 from pandapipes.pf.result_extraction import extract_all_results, extract_results_active_pit
+from pandapipes import _verif_hooks
 
 try:
     import pandaplan.core.pplog as logging
@@ -62,6 +63,7 @@ def pipeflow(net, sol_vec=None, **kwargs):
 
     # Init physical constants and options
     init_options(net, **kwargs)
+    _verif_hooks.emit("call", options=dict(net["_options"]) if _verif_hooks.ENABLED else None)
 
     # init result tables
     init_all_result_tables(net)
@@ -147,16 +149,22 @@ def newton_raphson(net, funct, mode, solver_vars, tols, pit_names, iter_name):
         for var, val_new, val_old in zip(solver_vars, vals_new, vals_old):
             dval = val_new - val_old
             errors[var].append(np.max(np.abs(dval)) if len(dval) else 0)
+        _vh_alpha = get_net_option(net, "alpha") if _verif_hooks.ENABLED else None
         finalize_iteration(
             net, niter, residual_norm, nonlinear_method, errors=errors, tols=tols, tol_res=tol_res,
             vals_old=vals_old, solver_vars=solver_vars, pit_names=pit_names, filtered=filtered
         )
+        _verif_hooks.emit("iter", stage=mode, niter=niter, errors=[errors[v][niter] for v in solver_vars],
+                          tols=list(tols), residual=residual_norm, tol_res=tol_res, method=nonlinear_method,
+                          alpha_used=_vh_alpha, alpha_next=get_net_option(net, "alpha") if _verif_hooks.ENABLED else None,
+                          converged=bool(net.converged))
         niter += 1
     write_internal_results(net, **errors)
     kwargs = dict()
     kwargs['residual_norm_%s' % mode] = residual_norm
     kwargs['iterations_%s' % mode] = niter
     write_internal_results(net, **kwargs)
+    _verif_hooks.emit("stage_end", stage=mode, niter=niter, max_iter=max_iter, converged=bool(net.converged))
     log_final_results(net, mode, niter, residual_norm, solver_vars, tols)
 
 
